@@ -20,6 +20,8 @@ KEYS_HOSTILE = [
     b"\x01\x02\x1f", b"\x7f", "é".encode(), "é".encode(), "ÅÅ".encode(), "日本語".encode(),
     "😀".encode(), " sep".encode(), b"../x", b"../../etc/passwd", b"/abs/path", b"a/../b", b".", b"..",
     b"KEY", b"Key", b"key ", b"index-v5", b"content-v2/sha256/aa/bb/cc", b"k" * 4096,
+    "caf\u0065\u0301".encode(), "\U0001F468\u200d\U0001F469\u200d\U0001F467".encode(), "v\ufe0f".encode(),
+    "line\u2028sep\u0085".encode(), "\u202eright-to-left".encode(), b"esc\x1b[0m",
 ]
 ALGOS = L.ALGOS
 
